@@ -342,6 +342,9 @@ pub enum RefItem {
     Mac1 { creds: RefCreds, flip: Option<(usize, u8)> },
     /// MESSAGE-INTEGRITY-SHA256 truncated to `len` (16..=32, multiple of 4)
     Mac256 { creds: RefCreds, len: usize, flip: Option<(usize, u8)> },
+    /// a FINGERPRINT attribute that is too long: the correct CRC (for a length field covering the
+    /// whole attribute) followed by `extra` (a multiple of 4) further value bytes.  Never well-formed.
+    FpLong { extra: usize },
     Fp { flip: Option<(usize, u8)> },
 }
 
@@ -402,6 +405,13 @@ impl RefMsg {
                     while b.len() % 4 != 0 {
                         b.push(0);
                     }
+                }
+                RefItem::FpLong { extra } => {
+                    let c = crc32_with_len(&b, (b.len() + 8 + extra - 20) as u16) ^ FP_XOR;
+                    b.extend_from_slice(&FP.to_be_bytes());
+                    b.extend_from_slice(&((4 + extra) as u16).to_be_bytes());
+                    b.extend_from_slice(&c.to_be_bytes());
+                    b.extend(std::iter::repeat(0x5a).take(*extra));
                 }
                 RefItem::Fp { flip } => {
                     let c = crc32_with_len(&b, (b.len() + 8 - 20) as u16) ^ FP_XOR;
